@@ -542,9 +542,9 @@ func c19Uniform(t *rapid.T, label string, n int) int {
 	nb := bits.Len(uint(n - 1))
 	for try := 0; ; try++ {
 		v := 0
-		for i := nb - 1; i >= 0; i-- {
-			if rapid.Bool().Draw(t, label) {
-				v |= 1 << i
+		for i, b := range rapid.SliceOfN(rapid.Bool(), nb, nb).Draw(t, label) {
+			if b {
+				v |= 1 << (nb - 1 - i)
 			}
 		}
 		if v < n {
